@@ -2,6 +2,7 @@
 // /repo/Cargo.lock pins).  Usage: xlate <GenName> <repo> <out.v>.  Exit 3 + "shape changed: ..." when an
 // item no longer has the shape the translator understands (a broken obligation, never a silent fallback).
 mod refers;
+mod helpers;
 
 #[macro_export]
 macro_rules! shape_changed {
@@ -33,6 +34,7 @@ fn main() {
     if a.len() != 4 { eprintln!("usage: xlate <GenName> <repo> <out.v>"); std::process::exit(2); }
     match a[1].as_str() {
         "GenRefers" => refers::generate(&a[2], &a[3]),
+        "GenHelpers" => helpers::generate(&a[2], &a[3]),
         other => { eprintln!("unknown generator {other}"); std::process::exit(2) }
     }
 }
